@@ -591,7 +591,7 @@ func judge(cfg Cfg, r *result) (string, string) {
 		return "panic", fmt.Sprint(r.panic)
 	}
 	if r.w.nreq > 300 {
-		return "no-termination", "more than 300 requests"
+		return "observed:no-termination", "more than 300 requests"
 	}
 	if len(r.w.leaks) > 0 {
 		var lg []string
